@@ -293,3 +293,65 @@ func (w *World) RewriteAsForeignPar1(r *Run) {
 	r.Logf("archive rewritten as by another PAR1 client: %d unsaved entries, %d comment bytes", nextra, len(comment))
 	r.Probe("par1-foreign-writer")
 }
+
+// RewriteAsForeignPar2 replaces the archive files present on disk by
+// what another PAR2 client would have written for the same data files,
+// slice size and recovery exponents (packets from the independent
+// reference writer), optionally with files in the main packet's
+// non-recovery set: listed and described, but not protected. Returns
+// false (and changes nothing) when the set is too big for the reference
+// arithmetic.
+func (w *World) RewriteAsForeignPar2(r *Run) bool {
+	t := r.T
+	t.Begin("foreign-par2-writer")
+	defer t.End()
+	var all []int
+	seen := map[int]bool{}
+	for _, es := range w.Exps {
+		for _, e := range es {
+			if !seen[e] {
+				seen[e] = true
+				all = append(all, e)
+			}
+		}
+	}
+	if w.N*len(all)*w.S > 6<<20 || w.N > 3000 {
+		return false
+	}
+	for _, f := range w.Files {
+		if len(f.Data) == 0 {
+			return false
+		}
+	}
+	var extras []ref.Protected
+	nn := t.Draw(3, "non-recovery-files")
+	for k := 0; k < nn; k++ {
+		e := ref.Protected{Name: fmt.Sprintf("not-protected%d.txt", k), Data: expandContent(ckText, t.Draw64(0, "extra-seed"), 1+t.Draw(300, "extra-len"), 4)}
+		extras = append(extras, e)
+		if t.Bool(2, 3, "extra-present") {
+			w.Disk.Put(filepath.Join(w.Dir, e.Name), e.Data)
+			w.Bystanders[filepath.Join(w.Dir, e.Name)] = e.Data
+		}
+		r.Probe("par2-non-recovery-set-file")
+	}
+	set := ref.BuildSet(w.Files, w.S, all, "another client", extras...)
+	for p := range w.Created {
+		if _, ok := w.Disk.Get(p); !ok {
+			continue
+		}
+		nb := append([]byte(nil), set.Creator...)
+		for _, c := range set.CriticalPackets() {
+			nb = append(nb, c...)
+		}
+		if p != w.Index {
+			for _, e := range w.Exps[p] {
+				nb = append(nb, set.Recovery[e]...)
+			}
+		}
+		w.Disk.Put(p, nb)
+		w.Created[p] = nb
+	}
+	r.Logf("archive rewritten as by another PAR2 client: %d files in the non-recovery set", nn)
+	r.Probe("par2-foreign-writer")
+	return true
+}
